@@ -386,6 +386,10 @@ impl<'a> Runtime<'a> {
                         span: err.span,
                         message: ArenaCow::Borrowed("Index value don pass array length"),
                     }],
+                    RuntimeErrorKind::TypeMismatch if err.name.is_empty() => vec![Label {
+                        span: err.span,
+                        message: ArenaCow::Borrowed("Dis value type no fit dis operation"),
+                    }],
                     RuntimeErrorKind::TypeMismatch => vec![Label {
                         span: err.span,
                         message: ArenaCow::Owned(arena_format!(
@@ -464,9 +468,9 @@ impl<'a> Runtime<'a> {
                 let is_truthy = match val {
                     Value::Bool(b) => b,
                     Value::Null => false, // null is falsy
-                    _ => unreachable!(
-                        "Semantic analysis guarantees only boolean expressions in conditions"
-                    ),
+                    _ => {
+                        return Err(RuntimeError::new(RuntimeErrorKind::TypeMismatch, cond.span()));
+                    }
                 };
                 if is_truthy {
                     self.exec_block_with_flow(then_b)
@@ -482,9 +486,12 @@ impl<'a> Runtime<'a> {
                     let should_continue = match val {
                         Value::Bool(b) => b,
                         Value::Null => false,
-                        _ => unreachable!(
-                            "Semantic analysis guarantees only boolean expressions in loop conditions"
-                        ),
+                        _ => {
+                            return Err(RuntimeError::new(
+                                RuntimeErrorKind::TypeMismatch,
+                                cond.span(),
+                            ));
+                        }
                     };
                     if !should_continue {
                         break;
@@ -627,7 +634,7 @@ impl<'a> Runtime<'a> {
                     match r {
                         Value::Bool(b) => Ok(Value::Bool(b)),
                         Value::Null => Ok(Value::Bool(false)),
-                        _ => unreachable!("Semantic analysis guarantees boolean expressions"),
+                        _ => Err(RuntimeError::new(RuntimeErrorKind::TypeMismatch, *span)),
                     }
                 }
                 BinaryOp::Or => {
@@ -639,7 +646,7 @@ impl<'a> Runtime<'a> {
                     match r {
                         Value::Bool(b) => Ok(Value::Bool(b)),
                         Value::Null => Ok(Value::Bool(false)),
-                        _ => unreachable!("Semantic analysis guarantees boolean expressions"),
+                        _ => Err(RuntimeError::new(RuntimeErrorKind::TypeMismatch, *span)),
                     }
                 }
                 _ => {
@@ -661,7 +668,7 @@ impl<'a> Runtime<'a> {
                             BinaryOp::Eq => Ok(Value::Bool((lv - rv).abs() <= FLOAT_EQ_EPS)),
                             BinaryOp::Gt => Ok(Value::Bool(lv > rv)),
                             BinaryOp::Lt => Ok(Value::Bool(lv < rv)),
-                            _ => unreachable!("Semantic analysis guarantees valid number ops"),
+                            _ => Err(RuntimeError::new(RuntimeErrorKind::TypeMismatch, *span)),
                         },
                         (Value::Str(ls), Value::Str(rs)) => match op {
                             BinaryOp::Add => {
@@ -674,10 +681,9 @@ impl<'a> Runtime<'a> {
                             BinaryOp::Eq => Ok(Value::Bool(ls == rs)),
                             BinaryOp::Gt => Ok(Value::Bool(ls > rs)),
                             BinaryOp::Lt => Ok(Value::Bool(ls < rs)),
-                            _ => unreachable!("Semantic analysis guarantees valid string ops"),
+                            _ => Err(RuntimeError::new(RuntimeErrorKind::TypeMismatch, *span)),
                         },
-                        (Value::Str(ls), Value::Number(n)) => {
-                            assert!(matches!(op, BinaryOp::Add));
+                        (Value::Str(ls), Value::Number(n)) if matches!(op, BinaryOp::Add) => {
                             let mut writer = LenWriter(0);
                             write!(writer, "{n}").unwrap();
                             let mut s =
@@ -686,8 +692,7 @@ impl<'a> Runtime<'a> {
                             write!(s, "{n}").unwrap();
                             Ok(Value::Str(ArenaCow::Owned(s)))
                         }
-                        (Value::Number(n), Value::Str(rs)) => {
-                            assert!(matches!(op, BinaryOp::Add));
+                        (Value::Number(n), Value::Str(rs)) if matches!(op, BinaryOp::Add) => {
                             let mut writer = LenWriter(0);
                             write!(writer, "{n}").unwrap();
                             let mut s =
@@ -700,31 +705,29 @@ impl<'a> Runtime<'a> {
                             BinaryOp::Eq => Ok(Value::Bool(lv == rv)),
                             BinaryOp::Gt => Ok(Value::Bool(lv && !rv)), // false < true
                             BinaryOp::Lt => Ok(Value::Bool(!lv & rv)),
-                            _ => unreachable!("Semantic analysis guarantees valid bool ops"),
+                            _ => Err(RuntimeError::new(RuntimeErrorKind::TypeMismatch, *span)),
                         },
                         (Value::Null, Value::Null) => match op {
                             BinaryOp::Eq => Ok(Value::Bool(true)),
                             BinaryOp::Gt | BinaryOp::Lt => Ok(Value::Bool(false)),
-                            _ => unreachable!("Semantic analysis guarantees valid null ops"),
+                            _ => Err(RuntimeError::new(RuntimeErrorKind::TypeMismatch, *span)),
                         },
                         (Value::Null, ..) | (.., Value::Null) => match op {
                             BinaryOp::Eq | BinaryOp::Gt | BinaryOp::Lt => Ok(Value::Bool(false)),
-                            _ => unreachable!("Semantic analysis guarantees valid null ops"),
+                            _ => Err(RuntimeError::new(RuntimeErrorKind::TypeMismatch, *span)),
                         },
-                        _ => {
-                            unreachable!("Semantic analysis guarantees matching operand types")
-                        }
+                        _ => Err(RuntimeError::new(RuntimeErrorKind::TypeMismatch, *span)),
                     }
                 }
             },
 
-            Expr::Unary { op, expr, .. } => {
+            Expr::Unary { op, expr, span } => {
                 let v = self.eval_expr(expr)?;
                 match (op, v) {
                     (UnaryOp::Not, Value::Bool(b)) => Ok(Value::Bool(!b)),
                     (UnaryOp::Not, Value::Null) => Ok(Value::Bool(true)),
                     (UnaryOp::Minus, Value::Number(n)) => Ok(Value::Number(-n)),
-                    _ => unreachable!("Semantic analysis guarantees valid unary expressions"),
+                    _ => Err(RuntimeError::new(RuntimeErrorKind::TypeMismatch, *span)),
                 }
             }
             Expr::Array { elements, .. } => {
@@ -739,7 +742,7 @@ impl<'a> Runtime<'a> {
                 let array_value = self.eval_expr(array)?;
                 let index_value = self.eval_expr(index)?;
                 let Value::Array(mut items) = array_value else {
-                    unreachable!("Semantic analysis guarantees only arrays can be indexed")
+                    return Err(RuntimeError::new(RuntimeErrorKind::TypeMismatch, array.span()));
                 };
 
                 let Value::Number(index_number) = index_value else {
